@@ -444,7 +444,11 @@ def rule_C17(c):
     parsed = rule_sanitised(c, "C17.R1", "bls_spock_verify", 2)
     g = c.cfg("C17.R1", "bls_spock_verify")
     if g:
-        pk1, sig1, pk2, sig2 = [p["name"] for p in c.p.params("bls_spock_verify")]
+        ps_ = [p["name"] for p in c.p.params("bls_spock_verify")]
+        if len(ps_) != 4:
+            c.und("C17.R1", "bls_spock_verify/interface", c.p.pos(g.f), "bls_spock_verify takes %d parameters; the rules know the interface (pk1, sig1, pk2, sig2): which proof is paired with which key cannot be followed" % len(ps_))
+            return
+        pk1, sig1, pk2, sig2 = ps_
         ev = path_events(g, [n for n in g.nodes])
         # the pairing relation e(p1, -pk2) * e(p2, pk1): element 0 ↔ sig1/-pk2, element 1 ↔ sig2/pk1
         # (which object was parsed from which proof is taken from the parse sites found above, wherever they sit)
